@@ -77,6 +77,11 @@ for f in $CONE; do
     if (cd coq && make -q "${f%.v}.vo" >/dev/null 2>&1); then DIS=$((DIS+n)); fi;;
   esac
 done
+# tables the translator could not read, if the property's proofs rest on them
+export VERIF_UNREADABLE=""
+case " $CONE " in *" Gen/AbiTables.v "*)
+  [ -s coq/Gen/unreadable.txt ] && VERIF_UNREADABLE="$(cut -c1-200 coq/Gen/unreadable.txt | head -20)";;
+esac
 export VERIF_OBLIGATIONS=$OBL VERIF_DISCHARGED=$DIS
 export VERIF_PROOF_STATUS="$PROOF_STATUS"
 export VERIF_ASSUMPTIONS="$(echo "$ASSUM" | sort | uniq -c | sed 's/^ *//')"
